@@ -5,6 +5,8 @@ package main
 import (
 	"fmt"
 	"os"
+
+	"verif/internal/checks/c14"
 )
 
 type check struct {
@@ -26,6 +28,12 @@ func main() {
 			os.Exit(2)
 		}
 		c.worker(os.Args[3])
+		return
+	}
+	if os.Args[1] == "c14run" {
+		for _, l := range c14.RunScenario(os.Args[2]) {
+			fmt.Println(l)
+		}
 		return
 	}
 	if os.Args[1] == "smokeagg" {
